@@ -29,6 +29,9 @@ GRIDS = {
     "1x2": {"a": 2}, "2x1": {"a": 1, "b": 1}, "2x3": {"a": 2, "b": 3}, "3x3x2": {"a": 3, "b": 3, "c": 2},
     "empty": {}, "list[2|2x2]": [{"a": 2}, {"a": 2, "b": 2}], "list[empty|3]": [{}, {"z": 3}],
     "list[1|1]": [{"k": 1}, {"k": 1}],
+    # keys inserted in non-alphabetical order (iteration and indexing must still agree)
+    "unsorted[b2,a3]": {"b": 2, "a": 3}, "unsorted[c2,a2,b2]": {"c": 2, "a": 2, "b": 2},
+    "list[a2|z2,y2]": [{"a": 2}, {"z": 2, "y": 2}],
 }
 
 
